@@ -30,9 +30,11 @@ MANIFEST = dict(
          "for sorting and for construction histories (C18_sort_terminates_acyclic, C18_built_acyclic_sorts); for the "
          "removal operations: proved for remove_nodes (C37_wellformed_remove_nodes_succeeds, "
          "C37_wellformed_removals_never_raise: on a well-formed object a remove_nodes call meeting the computable "
-         "precondition pre_opb returns, stays well-formed and leaves a valid order); for remove_nodes_connections, "
-         "remove_previous_connections and remove_successors_nodes it is checked by the executable reference reading "
-         "only (see design/C37.md).",
+         "precondition pre_opb returns, stays well-formed and leaves a valid order), for remove_nodes_connections and "
+         "remove_previous_connections (C37_wellformed_remove_nodes_connections_succeeds, "
+         "C37_wellformed_remove_previous_connections_succeeds) and for histories mixing the three "
+         "(C37_wellformed_removal_history_never_raises); for remove_successors_nodes it is checked by the executable "
+         "reference reading only (see design/C37.md).",
     note="Trusted: Coq kernel + vm_compute; hand-written model Model/Graph.v (nodes identified by name; a raising call "
          "ends the history); correspondence is differential testing.",
     technique="Coq proof (invariant over operation histories; soundness of the pass-wise sort from arbitrary state) + "
